@@ -221,6 +221,10 @@ def grid(ctx, only_functions=None, thorough=None):
         for ci in range(n):
             v = vn[((ci // 4) + ctx.seed) % 4]
             cells.append((per_variant[v][ci], c13_dyn.LAYOUTS[(ci + ctx.seed) % 4], "operator"))
+    # utilities called directly on degenerate shapes (1x1, single probe / batch, size-1 dims) x sign patterns: all four layouts, both tiers
+    for c in c13_cases.degenerate_utility_cases():
+        for lay in c13_dyn.LAYOUTS:
+            cells.append((c, lay, "degenerate"))
     # backward passes with explicit caller-owned gradient tensors (every custom autograd Function; all outputs of one call):
     # quick = two classes in all four layouts, the others with the layout rotating; thorough = all four
     for k, c in enumerate(c13_cases.backward_grad_cases()):
@@ -442,7 +446,7 @@ def trace_cells(ctx, cells):
             idx = ["contiguous", "expanded", "transposed", "slice"].index(lay)
             if idx == 0 or idx == 1 + (__import__("zlib").crc32((k[0] + k[1]).encode()) + ctx.seed) % 3:
                 out.append((case, lay, kind))
-        elif kind == "backward":
+        elif kind in ("backward", "degenerate"):
             if i % 4 == ctx.seed % 4:
                 out.append((case, lay, kind))
         elif i % 2 == ctx.seed % 2:
@@ -701,7 +705,8 @@ def replay(rp):
         from . import c13_seq
         case = c13_seq.find_case(rp["entry"], rp["variant"])
     else:
-        allc = c13_cases.utility_cases() + c13_cases.operator_cases() + c13_cases.backward_grad_cases() + c13_cases.history_cases() + \
+        allc = c13_cases.utility_cases() + c13_cases.degenerate_utility_cases() + c13_cases.operator_cases() + c13_cases.backward_grad_cases() + \
+            c13_cases.history_cases() + \
             c13_cases.random_history_cases(400)
         case = next((c for c in allc if c[0] == rp["entry"] and c[1] == rp["variant"]), None)
     if case is None:
